@@ -58,6 +58,17 @@ def arith_spec(g, uid, t0, horizon, opts=None):
         interval = max(1, int(horizon / want))
     if g.chance(0.2):
         interval = g.pick([1, 2, 3, 5, 7, 10, 30, 60, 90])
+    # FREQ=DAILY;INTERVAL>=32 (and HOURLY intervals of a month and more) are
+    # expanded wrongly by the RRULE engine (observed; C01 territory, not
+    # claimed): keep the independently computed expectation valid by
+    # keeping every period below 27 days
+    while unit * interval > 27 * 86400:
+        interval = max(1, interval // 2)
+    # bounded runs: no more than a few hundred occurrences in the horizon
+    while horizon / (unit * interval) > opts.get('max_spawns', 300):
+        interval *= 2
+    while unit * interval > 27 * 86400:
+        interval = max(1, interval // 2)
     step = unit * interval
     # where does it start relative to load time
     where = g.wpick([('future', 5), ('past', 3), ('at', 1), ('farpast', 0.7), ('allpast', 0.5)])
@@ -81,6 +92,10 @@ def arith_spec(g, uid, t0, horizon, opts=None):
                 start = int(t0) - nb * step - g.rint(0, step - 1)
     else:
         start = int(t0 - g.uni(step * 3, step * 50 + 100))
+    # echse supports 1902..2098
+    lo_ts = -2145916800 + 86400 * 400
+    if start < lo_ts:
+        start += ((lo_ts - start) // step + 1) * step
     rule = {'freq': freq, 'interval': interval}
     endk = g.wpick([('count', 6), ('until', 2), ('none', 1 if where != 'allpast' else 0)])
     if where == 'allpast':
@@ -295,3 +310,169 @@ PROFILES = {'C04': gen_c04}
 
 def gen(profile, seed, tier='quick', opts=None):
     return PROFILES[profile](seed, tier, opts)
+
+
+# ---------------------------------------------------------------- C12
+def gen_c12(seed, tier='quick', opts=None):
+    """C12: as C04 with X-ECHS-MAX-SIMUL limits and job durations chosen
+    relative to the period so that the limit is reached, left, reached again"""
+    o = {'property': 'C12', 'maxsimul': True, 'p_exitdelay': 0.5, 'max_occ': 60}
+    o.update(opts or {})
+    plan = gen_c04(seed, tier, o)
+    g = G(seed ^ 0x5a5a5a5a)
+    # calendar-level limits for some requests
+    for ep in plan['epochs']:
+        for op in ep['ops']:
+            if op['op'] == 'add' and g.chance(0.25):
+                op['cal'] = {'maxsimul': g.pick([1, 1, 2, 3, 5])}
+    # lifetimes: multiples of the period around the limit
+    tasks = {t['id']: t for t in plan['tasks']}
+    for t in plan['tasks']:
+        sp = t['spec']
+        r0 = sp['rules'][0]
+        step = ical.UNIT[r0['freq']] * r0.get('interval', 1)
+        n = sp.get('maxsimul') or 2
+        ll = []
+        for _ in range(g.rint(1, 4)):
+            k = g.wpick([(0.3, 2), (0.9, 2), (1.1, 2), (n - 0.2, 2), (n + 0.3, 3), (n * 2.5, 1), (0.0, 0.5)])
+            ll.append([round(step * k * g.uni(0.95, 1.05), 3), g.pick(EXIT_STATUS),
+                       round(g.pick([0, 0, 0.001, step * 0.3, step * 1.2]), 3)])
+        plan['life'][sp['uid']] = ll
+    return plan
+
+
+# ---------------------------------------------------------------- C11
+_COLL = None
+
+
+def collision_groups():
+    global _COLL
+    if _COLL is None:
+        import json
+        try:
+            _COLL = json.load(open('/verif/build/uidcoll.json'))
+        except Exception:
+            _COLL = {}
+    return _COLL
+
+
+def gen_c11(seed, tier='quick', opts=None):
+    """C11: histories of add/replace/cancel/list requests by several peers"""
+    g = G(seed)
+    opts = dict(opts or {})
+    t0 = T_BASE + g.rint(0, 86400 * 365 * 8)
+    horizon = g.pick([60, 120, 600, 1800])
+    nusers = g.rint(2, 5)
+    users = mk_users(g, nusers)
+    peers = [u['uid'] for u in users]
+    if g.chance(0.3):
+        peers.append(0)
+    cfg = base_cfg(g, t0)
+    cfg['late'] = [g.pick([0.0, 0.05]), 2.0, g.pick([0.0, 0.05]), g.pick([0.002, 0.05])]
+    # UID pool
+    pool = ['j%d@sim' % i for i in range(g.rint(2, 6))]
+    coll = collision_groups()
+    if coll and g.chance(0.6):
+        for _ in range(g.rint(1, 3)):
+            b = g.pick(sorted(coll.keys(), key=int))
+            if coll[b]:
+                pool += g.pick(coll[b])
+    if g.chance(0.15):
+        pool += ['odd uid with spaces', 'x' * g.rint(100, 250), 'UID:in:uid', 'j;semi,comma']
+    tasks = []
+    ops = []
+    nreq = g.wpick([(g.rint(3, 8), 4), (g.rint(9, 30), 3), (g.rint(31, 80), 1 if tier == 'quick' else 3)])
+    t = t0 + 0.5
+    for _ in range(nreq):
+        t += g.wpick([(g.uni(0.0, 0.01), 2), (g.uni(0.01, 1.0), 3), (g.uni(1, horizon / max(4, nreq) * 2), 3)])
+        peer = g.pick(peers)
+        kind = g.wpick([('add', 6), ('cancel', 3), ('get', 3), ('addmulti', 1.5)])
+        if kind in ('add', 'addmulti'):
+            n = 1 if kind == 'add' else g.rint(2, 5)
+            tids = []
+            for _i in range(n):
+                uid = g.pick(pool)
+                sp = arith_spec(g, uid, t, horizon, {'max_occ': 6, 'p_rule2': 0, 'p_rdate': 0,
+                                                   'where': g.wpick([('future', 6), ('past', 2), ('allpast', 1)])})
+                x = g.r.random()
+                if x < 0.12:
+                    sp['owner'] = g.pick([str(g.pick(peers)), 'u%d' % g.pick(UIDS[:nusers]), 'nobody', '4711'])
+                elif x < 0.22:
+                    sp['setuid'] = g.pick([str(g.pick(peers)), '0', 'root', 'u%d' % g.pick(UIDS[:nusers])])
+                    if g.chance(0.5):
+                        sp['setgid'] = g.pick(['0', str(g.pick(peers))])
+                elif x < 0.27 and not opts.get('no_nodtstart'):
+                    sp['start'] = None
+                    sp['rules'] = []
+                    sp.pop('rdates', None)
+                if sp.get('start') is None:
+                    tk = {'id': len(tasks), 'family': 'nodtstart', 'spec': sp, 'occ': []}
+                else:
+                    tk = finish_task(len(tasks), sp, lo=t0 - 10)
+                tasks.append(tk)
+                tids.append(tk['id'])
+            op = {'t': round(t, 4), 'op': 'add', 'peer': peer, 'tasks': tids,
+                  'linger': round(g.uni(0.02, 1.5), 3),
+                  'via': 'echsq' if g.chance(0.7) else 'raw'}
+            if g.chance(0.08):
+                op['cal'] = {'owner': g.pick([str(g.pick(peers)), 'u%d' % g.pick(UIDS[:nusers])])}
+            if g.chance(0.05):
+                op['abort'] = True
+                op['linger'] = round(g.uni(0.0, 0.01), 4)
+            ops.append(op)
+        elif kind == 'cancel':
+            n = g.wpick([(1, 5), (2, 1), (3, 0.5)])
+            uids = [g.pick(pool + ['nosuch@sim']) for _i in range(n)]
+            ops.append({'t': round(t, 4), 'op': 'cancel', 'peer': peer, 'uids': uids,
+                        'linger': round(g.uni(0.02, 1.0), 3),
+                        'via': 'echsq' if g.chance(0.7) else 'raw'})
+        else:
+            base = g.wpick([('/queue', 3), ('/sched', 3)])
+            x = g.r.random()
+            path = base
+            if x < 0.25:
+                q = g.pick(peers + [0, 4711])
+                path = '/u/%d%s' % (q, base)
+            if g.chance(0.3):
+                path += '?' + '&'.join('tuid=' + g.pick(pool + ['nosuch@sim']).replace(' ', '%20')
+                                       for _i in range(g.rint(1, 3)))
+            ops.append({'t': round(t, 4), 'op': 'get', 'peer': peer, 'path': path})
+    # a burst of concurrently open connections (33..64 must all be served, >64 refused)
+    if g.chance(opts.get('p_burst', 0.12)):
+        n = g.wpick([(g.rint(33, 40), 3), (g.rint(41, 64), 2), (g.rint(65, 90), 1)])
+        tb = t0 + g.uni(1, horizon)
+        hold = g.uni(0.5, 3.0)
+        for i in range(n):
+            peer = g.pick(peers)
+            if g.chance(0.6):
+                uid = g.pick(pool)
+                sp = arith_spec(g, uid, tb, horizon, {'max_occ': 4, 'p_rule2': 0, 'p_rdate': 0, 'where': 'future'})
+                tk = finish_task(len(tasks), sp, lo=t0 - 10)
+                tasks.append(tk)
+                ops.append({'t': round(tb + i * 0.0001, 4), 'op': 'add', 'peer': peer, 'tasks': [tk['id']],
+                            'linger': round(hold + i * 0.001, 3), 'via': 'raw', 'burst': True})
+            else:
+                ops.append({'t': round(tb + i * 0.0001, 4), 'op': 'cancel', 'peer': peer,
+                            'uids': [g.pick(pool)], 'linger': round(hold + i * 0.001, 3), 'via': 'raw',
+                            'burst': True})
+    ops.sort(key=lambda o: o['t'])
+    end = max(t0 + horizon, max(o['t'] for o in ops) + 5) + 5
+    epochs = [{'start': t0, 'ops': ops}]
+    if g.chance(0.25):
+        cut = t0 + g.uni(0.2, 0.9) * (end - t0)
+        before = [o for o in ops if o['t'] < cut]
+        after = [o for o in ops if o['t'] >= cut + 3]
+        how = g.pick(['sigterm', 'crash'])
+        before.append({'t': round(cut, 3), 'op': how})
+        if how == 'sigterm':
+            before.append({'t': round(cut + 1, 3), 'op': 'crash'})
+        epochs = [{'start': t0, 'ops': before}, {'start': round(cut + 2, 3), 'ops': after}]
+    epochs[-1]['ops'].append({'t': round(end, 3), 'op': g.pick(['sigterm', 'crash'])})
+    epochs[-1]['ops'].append({'t': round(end + 1, 3), 'op': 'crash'})
+    return {'v': 1, 'engine': 'simd', 'property': 'C11', 'seed': seed, 'cfg': cfg,
+            'users': users, 'tasks': tasks, 'life': life_table(g, tasks, opts=opts),
+            'epochs': epochs}
+
+
+PROFILES['C12'] = gen_c12
+PROFILES['C11'] = gen_c11
